@@ -183,6 +183,12 @@ Theorem C11_recheck_current :
 Proof. exact recheck_current. Qed.
 Print Assumptions C11_recheck_current.
 
+(* since d8eface all three checks are in the source: the positive statement holds for the code as it is *)
+Theorem C11_recheck_positive_now :
+  dec_chk_left && dec_chk_width && dec_chk_bottom = true /\ recheck_ok dec_chk_left dec_chk_width dec_chk_bottom.
+Proof. exact (conj recheck_checks_present recheck_positive_now). Qed.
+Print Assumptions C11_recheck_positive_now.
+
 (* the C type of row_pointer[i] = &buf[i * (size_t)pitch]: no row offset wraps for any int height, pitch *)
 Theorem C11_row_ptr_no_wrap : forall base pitch h bu i,
   0 <= pitch < 2 ^ 31 -> 0 <= i < h -> h < 2 ^ 31 ->
